@@ -21,6 +21,7 @@ type gossipItem struct {
 	hash      Hash
 	kind      string // vertex | trx
 	origin    int
+	coOrigins []int
 	at        int64
 	netFrom   int // index into Net.Log where this item's traffic starts
 	dependent bool
@@ -140,6 +141,11 @@ func (w *World) judgeItem(it *gossipItem, quiet bool, lossy bool, prop string) {
 		}
 	}
 	admittedAt[it.origin] = it.at
+	for _, o := range it.coOrigins {
+		// the same item (equal hash) was also handed to another node directly: that node holds it as an origin
+		admittedAt[o] = it.at
+		admitted[o]++
+	}
 	for n, c := range admitted {
 		if c > 1 && it.kind == "vertex" {
 			w.violate(prop, "exactly-once", "vertex-admitted-twice-by-one-node", n, "item %s admitted %d times", hx(it.hash), c)
@@ -205,7 +211,7 @@ func (w *World) judgeItem(it *gossipItem, quiet bool, lossy bool, prop string) {
 				has = s.get(it.hash) != nil
 			}
 		} else {
-			has = admitted[n.Idx] > 0 || n.Idx == it.origin
+			has = admitted[n.Idx] > 0 || n.Idx == it.origin || containsInt(it.coOrigins, n.Idx)
 		}
 		if has {
 			continue
@@ -279,7 +285,19 @@ func gossipScenario(w *World, p *Plan, rec *Record) {
 				kind = "trx"
 			}
 			if it := w.issueItem(k, r, origin, kind, dependentClass); it != nil {
-				items = append(items, it)
+				merged := false
+				for _, prev := range items {
+					if prev.hash == it.hash {
+						// two origins produced an item with the same hash in the same instant (a vertex digest
+						// does not cover the sealing node): one item with two origins, not two items
+						prev.coOrigins = append(prev.coOrigins, origin.Idx)
+						w.probe("c11-two-origins-same-item-hash")
+						merged = true
+					}
+				}
+				if !merged {
+					items = append(items, it)
+				}
 			}
 			if dependentClass {
 				// further vertices right behind it, before the first one has spread
@@ -400,4 +418,13 @@ func init() {
 		return p
 	}
 	nontrivialRule["C12"] = "one evaluation = one seeded run of the C11 network with one byzantine relay whose outgoing gossip gets forged gossiper entries (class drawn per run: garbage, honest address with bad signature, valid signatures lifted from other items, own signature under honest addresses, the target itself, all of the target's neighbours, duplicates); every item is judged as in C11, delivery is required for honest nodes with an honest path to the origin; non-trivial = an item travelled two hops and the relay forged at least one list; distinct = trace hash"
+}
+
+func containsInt(xs []int, x int) bool {
+	for _, y := range xs {
+		if y == x {
+			return true
+		}
+	}
+	return false
 }
